@@ -153,6 +153,10 @@ def run_occ(cfg):
             CellBoundaryTagger(create=TAGS, trash=TAGS, event_handler=CellBoundaryEventHandler(),
                                internal_state_label=LABEL, tag="cell_boundary"),
         ]
+        if all(c in cells.nearby_cells(cells.zero_cell) for c in cells.yield_cells()):
+            # every cell is nearby: the real CellVetoEventHandler cannot be initialised (empty walker); the
+            # configuration is then run without the cell-veto tagger
+            del taggers[1]
         activator = TagActivator(taggers, [occ])
         sh = TreeStateHandler(TreePhysicalState(), TreeLiftingState())
         sh.initialize(build_nodes(cfg))
@@ -171,19 +175,22 @@ def run_occ(cfg):
     out["units"] = units
     out["init"] = snapshot(occ, cells)
     # the cell-veto handler's walker domain (real initialize): items of the alias tables + keys of the bound table
-    veto_handler = taggers[1].get_event_handlers()[0]
     dom = set()
-    for w in list(veto_handler._upper_bound_walker) + list(veto_handler._lower_bound_walker):
-        for row in w._table:
-            for it in row:
-                dom.add(it.item)
+    veto_handler = None
+    if taggers[1].tag == "cell_veto":
+        veto_handler = taggers[1].get_event_handlers()[0]
+        for w in list(veto_handler._upper_bound_walker) + list(veto_handler._lower_bound_walker):
+            for row in w._table:
+                for it in row:
+                    dom.add(it.item)
     out["veto_domain"] = sorted(cid(c) for c in dom)
-    out["veto_keys"] = sorted(cid(c) for c in veto_handler._derivative_bounds.keys())
+    out["veto_keys"] = sorted(cid(c) for c in veto_handler._derivative_bounds.keys()) if veto_handler else []
     tagger_of = activator._event_handler_tagger_dictionary
     # start of run
     d = activator.get_event_handlers_to_run([], None)
     (sor, _), = d.items()
     prev = sor
+    running = True
     steps_out = []
     cur_leaf = None
     for st in cfg["steps"]:
@@ -198,7 +205,8 @@ def run_occ(cfg):
                 sh._physical_state.set(ident, [b2f(x) for x in st["move"]])
             set_branch(sh, leaf, [1.0] + [0.0] * (dim - 1), Time(0.0, 0.0))
             cur_leaf = leaf
-            activator.get_trashable_events(prev)
+            if running:
+                activator.get_trashable_events(prev)
             active_state = sh.extract_active_global_state()
             nodes = [cn for root in active_state for cn in yield_nodes_on_level_below(root, cfg["cell_level"] - 1)]
             so["update_args"] = [[list(n.value.identifier), bool(occ._is_relevant_unit(n.value)),
@@ -208,6 +216,7 @@ def run_occ(cfg):
             for h, ids in d.items():
                 by_tag[tagger_of[h].tag].append([list(i) for i in ids])
                 prev = h
+            running = bool(d)
             so["taggers"] = by_tag
             so["state"] = snapshot(occ, cells)
             # cell-veto targets: exactly what the mediator does with the cell returned by send_event_time
